@@ -37,12 +37,27 @@ pub fn run(args: &[String]) -> i32 {
     let dir = &args[0];
     let seed: u64 = args[1].parse().unwrap();
     let thorough = args.get(2).map(|s| s == "1").unwrap_or(false);
-    let lim = apache_avro::util::max_allocation_bytes(256 * 1024);
+    // "ratio" mode: one process with a 64 MiB limit and very compressible multi-MiB payloads (a block may expand by
+    // more than 1000:1 and still be far below the allocation limit)
+    let ratio = args.get(3).map(|s| s == "ratio").unwrap_or(false);
+    let lim = apache_avro::util::max_allocation_bytes(if ratio { 64 << 20 } else { 256 * 1024 });
     let mut out = Out::new(dir);
     crate::util::watchdog(dir, 900000);
     let mut rng = Rng::new(seed);
     let mut py = PyCodecs::new();
-    let pls = payloads(&mut rng, thorough);
+    let pls = if ratio {
+        vec![
+            ("16 MiB of zeros".to_string(), vec![0u8; 16 << 20]),
+            ("16 MiB of 0xFF".to_string(), vec![0xffu8; 16 << 20]),
+            ("6 MiB of one byte then noise".to_string(), {
+                let mut v = vec![0x41u8; 6 << 20];
+                v.extend((0..1000).map(|_| rng.next() as u8));
+                v
+            }),
+        ]
+    } else {
+        payloads(&mut rng, thorough)
+    };
 
     let mut codecs: Vec<(String, &str, Codec)> = vec![("null".into(), "null", Codec::Null), ("snappy".into(), "snappy", Codec::Snappy)];
     for lv in [CompressionLevel::NoCompression, CompressionLevel::BestSpeed, CompressionLevel::DefaultLevel, CompressionLevel::BestCompression,
@@ -71,6 +86,9 @@ pub fn run(args: &[String]) -> i32 {
             if data.len() > 5_000 && (cname == "zstandard level 22" || cname == "zstandard level 200") {
                 continue; // ultra levels allocate 128 MiB windows per call: small payloads only
             }
+            if ratio && ((cname.starts_with("xz level") && !cname.ends_with(" 0") && !cname.ends_with(" 6")) || (cname.starts_with("bzip2 level") && !cname.ends_with(" 1") && !cname.ends_with(" 9"))) {
+                continue;
+            }
             let case = format!("codec={cname} payload={pname} ({} bytes)", data.len());
             crate::util::begin_case(&case);
             out.count(&format!("roundtrip_{family}"));
@@ -92,6 +110,9 @@ pub fn run(args: &[String]) -> i32 {
                 Ok(Ok(())) => out.oracle_fail("roundtrip-differs", &format!("got {} bytes back", buf.len()), &case),
                 Ok(Err(e)) => out.oracle_fail("roundtrip-error", &format!("{e}"), &case),
                 Err(()) => out.oracle_fail("panic", "decompress panicked", &case),
+            }
+            if ratio {
+                continue; // the multi-MiB payloads: round trip only
             }
             // interop with the reference codecs
             match *family {
@@ -153,7 +174,7 @@ pub fn run(args: &[String]) -> i32 {
         }
     }
     // output cap: limit-1, limit, limit+1, 4*limit of compressible data, every codec
-    for (cname, _, codec) in codecs.iter().filter(|c| c.0 == "null" || c.0 == "snappy" || c.0.contains("DefaultLevel") || c.0.ends_with("level 3") || c.0.ends_with("level 9")) {
+    for (cname, _, codec) in codecs.iter().filter(|c| !ratio && (c.0 == "null" || c.0 == "snappy" || c.0.contains("DefaultLevel") || c.0.ends_with("level 3") || c.0.ends_with("level 9"))) {
         for n in [lim - 1, lim, lim + 1, 4 * lim] {
             let data = vec![0x55u8; n];
             let mut b = data.clone();
